@@ -353,8 +353,39 @@ class Interp:
         if z3.is_true(cond): return True
         if z3.is_false(cond): return False
         if s.deadline is not None and time.time() > s.deadline: raise Unsupported('exploration deadline exceeded')
+        dec = s.__dict__.setdefault('_decided', {})
+        hit = dec.get(cond.get_id())         # same condition already decided on this path (AST kept alive in the entry)
+        if hit is not None: return hit[1]
+        us = s.__dict__.get('_uniq_subst')
+        if us is not None:
+            # the path condition has exactly one model on the tracked variables: a condition over them alone is decided by evaluation
+            c2 = z3.simplify(z3.substitute(cond, us))
+            if z3.is_true(c2) or z3.is_false(c2):
+                d = z3.is_true(c2); dec[cond.get_id()] = (cond, d); s.uniq_evals = s.__dict__.get('uniq_evals', 0) + 1; return d
+        d = s._branch(cond); dec[cond.get_id()] = (cond, d); return d
+    def _after_decision(s, fresh):
+        """Tracked variables (set by the harness in s.track_vars): once the path condition determines all of them, later
+        conditions over them are evaluated instead of sent to the solver.  The point where this happens is recorded in the
+        decision list (('uniq',)) so that a replay of the prefix switches at exactly the same place."""
+        tv = s.__dict__.get('track_vars')
+        if not tv or s.__dict__.get('_uniq_subst') is not None: return
+        if not fresh:
+            if s.dpos < len(s.decisions) and s.decisions[s.dpos] == ('uniq',):
+                s.dpos += 1
+                sv = z3.Solver(); sv.set('timeout', 60000); sv.add(*s.pc)
+                if sv.check() != z3.sat: raise Unsupported('replay: unique-model marker but path condition not satisfiable')
+                m = sv.model(); s._uniq_subst = [(v, m.eval(v, model_completion=True)) for v in tv]
+            return
+        if s.solver.check() != z3.sat: return
+        m = s.solver.model(); vals = [(v, m.eval(v, model_completion=True)) for v in tv]
+        s.solver.push(); s.solver.add(z3.Or([v != x for v, x in vals])); r = s.solver.check(); s.solver.pop()
+        if r == z3.unsat:
+            s._uniq_subst = vals; s.decisions.append(('uniq',)); s.dpos += 1
+    def _branch(s, cond):
         if s.dpos < len(s.decisions):
             d = s.decisions[s.dpos]; s.dpos += 1
+            s.assume(cond if d else z3.Not(cond)); s._after_decision(False)
+            return d
         else:
             ft = s.feasible(cond); ff = s.feasible(z3.Not(cond))
             if ft and ff:
@@ -364,7 +395,51 @@ class Interp:
             else: raise PathEnd()
             s.decisions.append(d); s.dpos += 1
         s.assume(cond if d else z3.Not(cond))
+        if ft and ff: s._after_decision(True)
         return d
+    def choose(s, e, lo=-1, hi=4096):
+        """Case-split a symbolic integer by model-guided choice: the solver proposes a value, the alternative (all other values)
+        is queued.  Decisions are recorded as ('pick', v) / ('excl', [..]) so that decision prefixes replay deterministically."""
+        e = s.I(e)
+        if s.deadline is not None and time.time() > s.deadline: raise Unsupported('exploration deadline exceeded')
+        known = s.__dict__.setdefault('_chosen', {})
+        hit = known.get(e.get_id())          # the AST is kept alive in the entry, so its id cannot be reused
+        if hit is not None: return hit[1]
+        us = s.__dict__.get('_uniq_subst')
+        if us is not None:
+            e2 = z3.simplify(z3.substitute(e, us))
+            if z3.is_int_value(e2):
+                v = e2.as_long(); known[e.get_id()] = (e, v); return v
+        v = s._choose(e, lo, hi); known[e.get_id()] = (e, v); return v
+    def _choose(s, e, lo, hi):
+        excl = []
+        if s.dpos < len(s.decisions):
+            d = s.decisions[s.dpos]
+            if d[0] == 'pick':
+                s.dpos += 1; s.assume(e == d[1]); s._after_decision(False); return d[1]
+            excl = list(d[1])
+        else:
+            s.decisions.append(('excl', []))
+        s.solver.push()
+        for x in excl: s.solver.add(e != x)
+        r = s.solver.check(); sv = s.solver
+        if r == z3.unknown:
+            # the incremental solver ran into its (short) feasibility timeout: once more from scratch with a generous one
+            sv = z3.Solver(); sv.set('timeout', 60000); sv.add(*s.pc)
+            for x in excl: sv.add(e != x)
+            r = sv.check()
+        if r != z3.sat:
+            s.solver.pop()
+            if r == z3.unknown: raise Unsupported('choose: solver answered unknown')
+            raise PathEnd()
+        v = sv.model().eval(e, model_completion=True).as_long()
+        sv.add(e != v); more = sv.check(); s.solver.pop()
+        if not (lo <= v <= hi): raise Unsupported('symbolic index %d outside [%d,%d]' % (v, lo, hi))
+        if more != z3.unsat: s.pending.append(s.decisions[:s.dpos] + [('excl', excl + [v])])
+        s.decisions[s.dpos] = ('pick', v); s.dpos += 1
+        s.assume(e == v)
+        s._after_decision(True)
+        return v
     def concretize(s, e, limit=None):
         """case-split a symbolic integer (an allocation size, typically) over 0..limit; deterministic, so that decision
         prefixes replay.  Values above the limit end the path as outside the stated bound."""
@@ -463,6 +538,12 @@ class Interp:
             if not is_sym(b):
                 bb = sgn(b); r = A % abs(bb)   # z3 mod is non-negative for positive divisor
                 return z3.If(z3.And(A < 0, r != 0), r - abs(bb), r)
+        if op in ('urem', 'udiv') and not is_sym(b) and b > 0:
+            # unsigned reading of the (signed-integer) operand: negative values stand for value + 2^bits
+            U = z3.If(A < 0, A + (1 << bits), A)
+            if op == 'urem': return U % b
+            q = U / b
+            return q if b > 1 else A
         if op == 'sdiv' and not is_sym(b):
             bb = sgn(b)
             if bb > 0: return z3.If(A >= 0, A / bb, -((-A) / bb))
@@ -534,7 +615,11 @@ class Interp:
             s.parsed[key] = [parse_ins(l) for l in f.blocks[lbl]]
         return s.parsed[key]
     def value(s, env, v):
-        if isinstance(v, Ref): return env[v.name]
+        if type(v) is Ref: return env[v.name]
+        if type(v) is Const and v.kind == 'int':
+            c = v.__dict__.get('_cv')
+            if c is None: c = v._cv = s.const(v)
+            return c
         return s.const(v)
     def tobool(s, c):
         if is_sym(c):
@@ -587,9 +672,21 @@ class Interp:
                 if s.icount > s.max_instr: raise Unsupported('instruction budget exceeded')
                 op = ins.op
                 if op == 'gep':
-                    env[ins.res] = s.gep_sym(ins.sty, s.value(env, ins.base), [s.value(env, i) for i in ins.idx])
+                    co = ins.__dict__.get('_coff', -1)
+                    if co == -1:
+                        # constant-index GEPs: the byte offset is a property of the instruction, computed once
+                        co = None
+                        if all(isinstance(i, Const) and i.kind == 'int' for i in ins.idx):
+                            try: co = s.gep(ins.sty, Ptr(1, 0), [s.const(i) for i in ins.idx]).off
+                            except Unsupported: co = None
+                        ins._coff = co
+                    b = s.value(env, ins.base)
+                    if co is not None and type(b) is Ptr: env[ins.res] = Ptr(b.obj, b.off + co)
+                    else: env[ins.res] = s.gep_sym(ins.sty, b, [s.value(env, i) for i in ins.idx])
                 elif op == 'load':
-                    env[ins.res] = s.load(s.value(env, ins.ptr), s.size(ins.ty), ins.ty)
+                    sz = ins.__dict__.get('_sz')
+                    if sz is None: sz = ins._sz = s.size(ins.ty)
+                    env[ins.res] = s.load(s.value(env, ins.ptr), sz, ins.ty)
                 elif op == 'store':
                     v = s.value(env, ins.v)
                     ty = s.resolve(ins.ty)
@@ -616,7 +713,7 @@ class Interp:
                         if isinstance(ty, FloatTy) and not getattr(s,'fork_fselect',False): env[ins.res] = z3.If(cb, s.R(a), s.R(b))
                         elif isinstance(ty, IntTy) and ty.bits == 1:
                             A = a if is_sym(a) else z3.BoolVal(bool(a)); B = b if is_sym(b) else z3.BoolVal(bool(b)); env[ins.res] = z3.If(cb, A, B)
-                        elif isinstance(ty, IntTy) and (is_sym(a) or is_sym(b)) and not getattr(s, 'fork_minmax', False):
+                        elif isinstance(ty, IntTy) and (is_sym(a) or is_sym(b)) and a is not UNDEF and b is not UNDEF and not getattr(s, 'fork_minmax', False):
                             def sg(x, bits=ty.bits): return x - (1 << bits) if (not is_sym(x)) and x >> (bits - 1) else x
                             env[ins.res] = z3.If(cb, s.I(sg(a)), s.I(sg(b)))
                         else:
@@ -702,12 +799,7 @@ class Interp:
             out = []
             for i in idxs:
                 if is_sym(i):
-                    chosen = None
-                    # try small range
-                    for k in range(-1, 65):
-                        if s.branch(i == k): chosen = k; break
-                    if chosen is None: raise Unsupported('symbolic index out of [-1,64]')
-                    out.append(chosen)
+                    out.append(s.choose(i))
                 else: out.append(i)
             idxs = out
         return s.gep(sty, base, idxs)
@@ -816,6 +908,10 @@ class Interp:
         if n.startswith('llvm.abs'):
             x = a[0]; bits = int(n.rsplit('.i', 1)[1]); v = x - (1 << bits) if x >> (bits - 1) else x; return abs(v) & ((1 << bits) - 1)
         if n.startswith('llvm.expect'): return a[0]
+        if n.startswith('llvm.ctlz'):
+            bits = int(n.rsplit('.i', 1)[1]); x = a[0]
+            if is_sym(x): raise Unsupported('ctlz of a symbolic value')
+            return bits - (x & ((1 << bits) - 1)).bit_length()
         if n.startswith('llvm.eh.typeid.for'):
             # catch clauses are not type-matched (DESIGN §2.2): the selector delivered by landingpad is 0 and every typeid is 0,
             # i.e. the first catch clause of a landing pad takes the exception; recorded so that checks can state it
